@@ -46,14 +46,15 @@
 //	cf <strictopt> <sites>
 //	    a Caddyfile run through the REAL adapter, its http app through the real App.Provision.
 //	    strictopt: n no option | b `strict_sni_host` | t `… on` | f `… insecure_off` | x `… off` (rejected)
-//	    sites     S;S;…  S = <name index 0..3>/<subs>   (names a.test b.test secret.test k.test, distinct)
+//	    sites     S;S;…  S = <name index 0..5>/<subs>   (names a.test b.test secret.test k.test *.w.test é.test, distinct)
 //	              subs  ~ no tls directive | . `tls { client_auth { } }` | letters, one per subdirective:
 //	              r q g R x `mode request|require|verify_if_given|require_and_verify|bogus`,
 //	              k K `trusted_ca_cert <good|bad base64>`, f F `trusted_ca_cert_file <readable|missing>`,
 //	              l M `trusted_leaf_cert <good|bad>`, j J `trusted_leaf_cert_file <readable|missing>`,
 //	              p P `trust_pool inline { trust_der <good|bad> }`, v `verifier verif_c19`
 //	  answer: err:adapt | err:provision | strict=<0|1> a=<ClientAuth type of the policy chosen for each
-//	          site name and for zz.test> r=<for each of those SNIs, each site name as Host: in:<k>|in:*|421>
+//	          client name (site name; x.w.test and .w.test for the wildcard site; the A-label for the IDN
+//	          site) and for zz.test> r=<for each of those SNIs, each client name as Host: in:<k>|in:*|421>
 //
 //	e2e <srv> <hs> <sniHex> <hostHex>
 //	    a REAL crypto/tls handshake (client without certificate, over an in-memory pipe) against the
@@ -1617,7 +1618,19 @@ func (p *prop) loadServer(strict string, pols []any, sites []string) (*caddyhttp
 
 // ---------------------------------------------------------------- Caddyfile glue
 
-var cfNames = []string{"a.test", "b.test", "secret.test", "k.test"}
+var cfNames = []string{"a.test", "b.test", "secret.test", "k.test", "*.w.test", "\u00e9.test"}
+
+// cfInstances: the names a client uses for site idx — the name itself; for the wildcard site an
+// instance and the empty-label non-instance; for the IDN site (written in Unicode form) its A-label
+func cfInstances(idx int) []string {
+	switch idx {
+	case 4:
+		return []string{"x.w.test", ".w.test"}
+	case 5:
+		return []string{"xn--9ca.test"}
+	}
+	return []string{cfNames[idx]}
+}
 
 func (p *prop) cfSub(c byte) (string, bool) {
 	missing := p.dir + "/does-not-exist.pem"
@@ -1683,7 +1696,7 @@ func (p *prop) runCF(f []string) core.Outcome {
 	seen := map[int]bool{}
 	for _, ss := range strings.Split(f[2], ";") {
 		parts := strings.Split(ss, "/")
-		if len(parts) != 2 || len(parts[0]) != 1 || parts[0][0] < '0' || parts[0][0] > '3' || parts[1] == "" {
+		if len(parts) != 2 || len(parts[0]) != 1 || parts[0][0] < '0' || parts[0][0] > '5' || parts[1] == "" {
 			return bad
 		}
 		i := int(parts[0][0] - '0')
@@ -1767,9 +1780,9 @@ func (p *prop) runCF(f []string) core.Outcome {
 	}
 	strict := srv.StrictSNIHost != nil && *srv.StrictSNIHost
 	tlsCfg := srv.TLSConnPolicies.TLSConfig(p.ctx)
-	var names []string
+	var names []string // what clients send: instances of the site names
 	for _, st := range sites {
-		names = append(names, cfNames[st.idx])
+		names = append(names, cfInstances(st.idx)...)
 	}
 	probes := append(append([]string{}, names...), "zz.test")
 	var auths strings.Builder
@@ -1811,8 +1824,14 @@ func (p *prop) runCF(f []string) core.Outcome {
 			// ---- the property through the Caddyfile: a request routed to a site whose own
 			// connection policy asks for a client certificate arrived on a connection whose policy
 			// asked for one too (same ClientAuth type), unless strict checking was switched off
-			if f[1] != "f" && strings.HasPrefix(res, "in:") && res != "in:*" && authOf[host] != tls.NoClientCert && authOf[sni] != authOf[host] {
-				fail("client-auth-site-reached-under-other-policy", fmt.Sprintf("Caddyfile:\n%s\nSNI %q (policy ClientAuth=%v), Host %q (its policy: ClientAuth=%v): request reached that site's handler", sb.String(), sni, authOf[sni], host, authOf[host]))
+			if f[1] != "f" && strings.HasPrefix(res, "in:") && res != "in:*" {
+				if k, err := strconv.Atoi(res[3:]); err == nil && k < len(sites) && sites[k].subs != "~" && sites[k].subs != "." && authOf[sni] == tls.NoClientCert {
+					class := "client-auth-site-reached-under-other-policy"
+					if sites[k].idx == 5 {
+						class = clsIDN
+					}
+					fail(class, fmt.Sprintf("Caddyfile:\n%s\nSNI %q (its connection policy asks for no client certificate), Host %q: request reached the handler of site %s, which has a client_auth block", sb.String(), sni, host, cfNames[sites[k].idx]))
+				}
 			}
 		}
 	}
